@@ -8,4 +8,5 @@ func registerStreams(m map[string]Stream) {
 	m["newentry"] = newEntryStream{}
 	m["resp"] = respStream{}
 	m["mux"] = muxStream{}
+	m["tdbind"] = tdBindStream{}
 }
